@@ -79,7 +79,10 @@ def gen_plan(rng, tier, i, seed):
             "k": rng.choice([0, 1, 5, 50, 200]), "which_open": rng.choice([2, 3]),
             # history: the healthy sample (same file name) is genotyped first in the same process
             "warm": rng.choice([False, "healthy", "healthy", "exome"]),
-            "err": rng.choice(["OSError", "OSError", "ValueError"])}
+            "err": rng.choice(["OSError", "OSError", "ValueError"]),
+            # configured minimum of zero: no depth is "below the minimum" any more, but a locus that no
+            # read covers must still be refused
+            "min_avg_zero": rng.random() < 0.3}
 
 
 def _materialise(runner, w):
@@ -115,7 +118,7 @@ def execute(plan, runner, rundir):
     res = runner.segment(dict(common, kind="loss", hashseed=plan["hashseed"], rundir=rundir, route=plan["route"],
                               out=plan["out"], loss=plan["loss"], multi=plan["multi"], avg=pil["avg_a"],
                               k=plan["k"], which_open=plan["which_open"], err=plan["err"],
-                              warm=plan.get("warm", False)))
+                              warm=plan.get("warm", False), min_avg_zero=plan.get("min_avg_zero", False)))
     return {"pilot": pil, "run": res}
 
 
@@ -430,6 +433,8 @@ def run_segment(seg):
         if ga["pregions"]:
             stream["drop"] = [[min(x for _, x, y in ga["regions"]), max(y for _, x, y in ga["regions"])],
                               [min(x for _, x, y in ga["pregions"]), max(y for _, x, y in ga["pregions"])]]
+    if seg.get("min_avg_zero") and loss in ("locus", "locus_decoy_sam", "empty", "seam_drop_locus"):
+        params["min_avg_coverage"] = 0
     if seg.get("warm"):
         # an earlier run in the same process (an API user or `--gene all` does this): the healthy sample
         # through the same route, or through the exome route (copy-number calling off; for a generated
